@@ -365,6 +365,20 @@ func genCaseFor(p Profile) func(t *rapid.T) Case {
 					hintKey = pk.Hint
 					if r.D%5 == 0 {
 						op.CBP = !op.CBP
+					} else if r.G%3 == 0 {
+						// a retransmission from a face that already holds an in-record of this entry
+						// (its record and the entry's expiry are refreshed; seeded C01-r2-3 computed
+						// the new expiry from the previous arrival time)
+						var fs []int
+						for gf, rec := range m.pit[pk].in {
+							if !rec.maybe && rec.exp > m.now && m.FaceIsUp(gf) {
+								fs = append(fs, gf)
+							}
+						}
+						sort.Ints(fs)
+						if len(fs) > 0 {
+							op.F = fs[r.F2%len(fs)]
+						}
 					}
 				case how == 4 && len(satisfiedKeys()) > 0:
 					// the key of an entry that was satisfied and may still await the sweep: the
